@@ -126,7 +126,7 @@ func runC02(r *mon.Run) {
 	})
 
 	// --- Sum / Product -----------------------------------------------------------
-	r.Require("n:vec:len=0", "n:vec:len=1", "n:vec:rcv-in-vec", "n:vec:repeated-entry")
+	r.Require("n:vec:len=0", "n:vec:len=1", "n:vec:rcv-in-vec", "n:vec:repeated-entry", "n:vec:stored-residue-sum-window", "n:vec:after-recovered-panic")
 	r.Each("n/sum+product", r.N(4000, 150000), func(w *mon.W, i int) {
 		rng := w.Rng
 		l := i % 14
@@ -146,6 +146,49 @@ func runC02(r *mon.Run) {
 			vals[j], _ = rng.Value(m)
 			vec[j] = api.mk(rng, vals[j])
 		}
+		// list-wide windows of the STORED (Montgomery) residues: an implementation that adds the
+		// stored words lazily and folds once sees their integer sum; the last entry is solved so
+		// that this sum lands next to a multiple of 2^256, next to a multiple of n, or inside
+		// [h*n + 2^256, (h+1)*2^256) (one conditional subtraction is then not enough)
+		if l >= 2 && i%3 == 1 {
+			S := new(big.Int)
+			for j := 0; j < l-1; j++ {
+				S.Add(S, oracle.ToMont(vals[j], m))
+			}
+			two256 := oracle.Two256
+			for try := 0; try < 40; try++ {
+				delta := new(big.Int).SetUint64(rng.U64())
+				switch rng.Intn(3) {
+				case 0:
+					delta = big.NewInt(int64(rng.Intn(3)))
+				case 1:
+					delta.Lsh(delta, uint(rng.Intn(64)))
+				}
+				j := new(big.Int).Add(new(big.Int).Div(S, two256), big.NewInt(int64(1+rng.Intn(2))))
+				var T *big.Int
+				switch kind := rng.Intn(5); kind {
+				case 0:
+					T = new(big.Int).Sub(new(big.Int).Mul(j, two256), new(big.Int).Add(delta, big.NewInt(1))) // just below j*2^256
+				case 1:
+					T = new(big.Int).Add(new(big.Int).Mul(j, two256), delta) // at / just above
+				case 2:
+					T = new(big.Int).Add(new(big.Int).Mul(j, m), delta) // at / just above j*n
+				case 3:
+					T = new(big.Int).Sub(new(big.Int).Mul(j, m), new(big.Int).Add(delta, big.NewInt(1)))
+				default:
+					h := new(big.Int).Sub(j, big.NewInt(1))
+					T = new(big.Int).Add(new(big.Int).Add(new(big.Int).Mul(h, m), two256), delta) // h*n + 2^256 + delta
+				}
+				last := new(big.Int).Sub(T, S)
+				if last.Sign() < 0 || last.Cmp(m) >= 0 {
+					continue
+				}
+				vals[l-1] = oracle.FromMont(last, m)
+				vec[l-1] = api.mk(rng, vals[l-1])
+				w.Class("n:vec:stored-residue-sum-window")
+				break
+			}
+		}
 		rcvVal := rng.Below(m)
 		rcv := api.mk(rng, rcvVal)
 		rcvIn := -1
@@ -164,6 +207,32 @@ func runC02(r *mon.Run) {
 				want = oracle.AddM(want, v, m)
 			} else {
 				want = oracle.MulM(want, v, m)
+			}
+		}
+		// a call that PANICS (a nil entry in the list), recovered by the caller, must leave
+		// nothing behind: the very next calls on this goroutine are checked as usual
+		if i%9 == 4 && l >= 1 {
+			hole := make([]*Scalar, 0, l+1)
+			at := rng.Intn(l + 1)
+			hole = append(hole, vec[:at]...)
+			hole = append(hole, nil)
+			hole = append(hole, vec[at:]...)
+			scratch := api.mk(rng, rcvVal)
+			mon.Panics(func() {
+				if isSum {
+					scratch.Sum(hole...)
+				} else {
+					scratch.Product(hole...)
+				}
+			})
+			w.Class("n:vec:after-recovered-panic")
+			a, b := rng.Below(m), rng.Below(m)
+			sa, sb := api.mk(rng, a), api.mk(rng, b)
+			if g, bad := api.val(secp256k1.NewScalar().Product(sa, sb)); bad != "" || g.Cmp(oracle.MulM(a, b, m)) != 0 {
+				w.Fail("n/Product:after-panic", fmt.Sprintf("Product(a, b) right after a recovered panic of %s(list with a nil entry) = %x, expected %x", map[bool]string{true: "Sum", false: "Product"}[isSum], g, oracle.MulM(a, b, m)), "a", hb(a), "b", hb(b))
+			}
+			if g, bad := api.val(secp256k1.NewScalar().Sum(sa, sb)); bad != "" || g.Cmp(oracle.AddM(a, b, m)) != 0 {
+				w.Fail("n/Sum:after-panic", fmt.Sprintf("Sum(a, b) right after a recovered panic = %x, expected %x", g, oracle.AddM(a, b, m)), "a", hb(a), "b", hb(b))
 			}
 		}
 		name := "Product"
